@@ -269,3 +269,82 @@ Proof.
     (conj agree_get_active agree_get_all)))))))).
 Qed.
 Print Assumptions C19_generated_model_agrees.
+
+(* ================= the maildir backend: one script, <user dir>/dovecot.sieve *)
+(* The connection layer is the same (it is generic in the store machine), so
+   the gate and isolation theorems hold verbatim for it. *)
+Theorem C19_maildir_gate : forall cfg compiles sasl w evs,
+  Forall (fun t : trans mstate =>
+    let '(wb, (k, i), o, wa) := t in
+    forall c, actor mstate wb k = Some c -> c_auth c = None ->
+      w_stores mstate wa = w_stores mstate wb
+      /\ (acts_unauthenticated i = false ->
+          wa = wb /\ exists tx, o = Some (r_no RcNone tx)))
+  (run_tr sasl mstate (mstate_run cfg compiles) m_init w evs).
+Proof. intros. apply gate_all_programs. Qed.
+Print Assumptions C19_maildir_gate.
+
+Theorem C19_maildir_isolation : forall cfg compiles sasl u2 w evs,
+  Forall (fun t : trans mstate =>
+    let '(wb, (k, i), o, wa) := t in
+    match actor mstate wb k with
+    | Some c => c_auth c <> Some u2 ->
+        get_store mstate m_init (w_stores mstate wa) u2
+        = get_store mstate m_init (w_stores mstate wb) u2
+    | None => wa = wb
+    end)
+  (run_tr sasl mstate (mstate_run cfg compiles) m_init w evs).
+Proof. intros. apply isolation_all_programs. Qed.
+Print Assumptions C19_maildir_isolation.
+
+(* every program on the maildir model is answered as the map specification
+   restricted to one name answers it ([spec1_run]: only "active" can be bound,
+   what is bound is active, no rename, no deactivation) *)
+Theorem C19_maildir_refines : forall cfg compiles sasl evs st sp cs,
+  mstores_rel st sp -> Forall (fun ev => input_wf (snd ev) = true) evs ->
+  let ri := run sasl mstate (mstate_run cfg compiles) m_init (mk_world mstate st cs) evs in
+  let rs := run sasl sspec (spec1_run cfg compiles) spec_init (mk_world sspec sp cs) evs in
+  Forall2 out_equiv (fst ri) (fst rs)
+  /\ mstores_rel (w_stores mstate (snd ri)) (w_stores sspec (snd rs))
+  /\ w_conns mstate (snd ri) = w_conns sspec (snd rs).
+Proof. intros cfg compiles sasl evs st sp cs. apply mworld_refines. Qed.
+Print Assumptions C19_maildir_refines.
+
+Theorem C19_maildir_refines_initially : mstores_rel [] [].
+Proof. intro u. exact m_refines_init. Qed.
+Print Assumptions C19_maildir_refines_initially.
+
+(* PUTSCRIPT "active" then GETSCRIPT returns the same bytes and LISTSCRIPTS
+   lists it as active — for every script within the size limit, the empty one
+   included (an existing empty file is not "no script") *)
+Theorem C19_maildir_put_then_get : forall cfg compiles s v,
+  fits cfg (N.of_nat (length v)) = true ->
+  mstate_run cfg compiles s (CPutScript kw_active v) = (r_ok, Some v)
+  /\ mstate_run cfg compiles (Some v) (CGetScript kw_active)
+     = (mk_resp OK RcNone TxNone (PScript v), Some v)
+  /\ mstate_run cfg compiles (Some v) CListScripts
+     = (mk_resp OK RcNone TxNone (PList [(kw_active, true)]), Some v).
+Proof. exact m_put_then_get. Qed.
+Print Assumptions C19_maildir_put_then_get.
+
+(* a script that is not stored is not acknowledged *)
+Theorem C19_maildir_put_other_refused : forall cfg compiles s n v,
+  n <> kw_active ->
+  r_cond (fst (mstate_run cfg compiles s (CPutScript n v))) = NO
+  /\ snd (mstate_run cfg compiles s (CPutScript n v)) = s.
+Proof. exact m_put_other_refused. Qed.
+Print Assumptions C19_maildir_put_other_refused.
+
+Theorem C19_maildir_errors_change_nothing : forall cfg compiles s c,
+  r_cond (fst (mstate_run cfg compiles s c)) <> OK -> snd (mstate_run cfg compiles s c) = s.
+Proof. exact mstate_run_error_same. Qed.
+Print Assumptions C19_maildir_errors_change_nothing.
+
+(* REFUTED on this backend — known finding C19-F2: "the active script cannot be
+   deleted".  The one script is listed as ACTIVE and DELETESCRIPT removes it
+   (there is no way to deactivate it first: SETACTIVE "" is not supported). *)
+Theorem C19_maildir_delete_active_refuted : forall cfg compiles,
+  exists s, r_payload (fst (mstate_run cfg compiles s CListScripts)) = PList [(kw_active, true)]
+    /\ mstate_run cfg compiles s (CDeleteScript kw_active) = (r_ok, None).
+Proof. exact m_delete_active_refuted. Qed.
+Print Assumptions C19_maildir_delete_active_refuted.
